@@ -16,7 +16,7 @@ def showStatus : Status → String
   | .dieTail => "die-tail"
   | .dieBufsize => "die-bufsize"
   | .dieRebuild => "die-rebuild"
-  | .dieRingNotSorted => "die-ringcheck"
+  | .errRingNotSorted => "err-ringcheck"
 
 def bit (b : Bool) : String := if b then "1" else "0"
 
